@@ -11,6 +11,7 @@ META = {
     "level": "Decides: (R1) ensure_perms changes ownership before mode before mtime on every path (chown clears set-id bits, so any other order loses the recorded mode), never chmods/utimes a symlink and keeps the mode of a directory that already exists; (R2) merge_contents handles directories (sorted) before other entries, keys hardlink candidates by (dev, inode), keeps that table alive across its retry loop, and every non-directory reaches copyfile(mkdirs=True) unless a hardlink succeeded; (R3) copyfile applies ownership/mode/mtime to the very path it wrote the data to, before any rename; (R4) the only filesystem-mutating primitives in fs/ops.py's merge path are the allow-listed ones and their path arguments derive from the entry's location. Does NOT decide the resulting filesystem for concrete trees.",
     "note": "POSIX fact: chown(2) clears S_ISUID/S_ISGID on non-directories; the data-transfer primitive and ensure_dirs are snakeoil (trusted base)",
 }
+META["technique"] += "; " + 'generic pack G on the anchored files (optional-flag shift, closures outliving a loop iteration, single-pass iterables consumed twice, %-templates built from data, in-place writes to class-level / memoised objects, generators mutating what they yielded, memo keys that are projections)'
 
 MOD = "pkgcore.fs.ops"
 MUTATORS = {"os.lchown", "os.chown", "os.chmod", "os.utime", "os.mkdir", "os.unlink", "os.link", "os.rename", "os.symlink", "os.mkfifo", "os.mknod", "os.rmdir",
